@@ -393,6 +393,13 @@ pub fn gen_net(rng: &mut Rng, opts: &GenOpts) -> NetCfg {
         }
     }
 
+    // the builder's set_activation path: re-set the activation of a plain hidden layer
+    if rng.chance(0.1) && net.layers.len() >= 2 {
+        let i = rng.below(net.layers.len() - 1);
+        if matches!(net.layers[i], LayerCfg::Dense { .. } | LayerCfg::Conv { .. } | LayerCfg::Deconv { .. }) {
+            net.set_activations.push((i, act(rng)));
+        }
+    }
     net.optimizer = gen_optimizer(rng, opts.stateful_optimizers);
     net.objective = if softmax {
         if rng.chance(0.7) { Obj::CrossEntropy } else { rng.pick(&[Obj::MSE, Obj::KLDivergence]) }
